@@ -65,6 +65,7 @@ class Exec:
         self.bound = 0  # depth of enclosing comprehensions / map loops
         self.known = []  # path conditions (value, polarity) of the branch being executed
         self.attrs = {}  # (value, attribute name) -> value: what the caller fixes about its symbols (e.g. the rank of x.shape)
+        self.const_fill = False  # read `[c] * len(xs)` as `[c for _ in xs]` (off where the slots are then written by index in a loop)
         self.callhooks = {}  # function value -> f(args, kwargs) -> value or None: semantics the caller gives to an external helper
         self.probes = []  # (line, path conditions, iterable, locals after one generic iteration) of loops that end a path
         self.watch = {}  # function / method name -> list of (path conditions, args, kwargs) of every call met
@@ -269,6 +270,9 @@ class Exec:
             return (a[0], a[1] + b[1])
         if op == "*" and a[0] in ("list", "tuple") and is_const(b) and type(b[1]) is int:
             return (a[0], a[1] * b[1])
+        # [c] * len(xs) with a constant c is [c for _ in xs]
+        if op == "*" and a[0] == "list" and len(a[1]) == 1 and is_const(a[1][0]) and b[0] == "call" and b[1] == ("sym", "len") and len(b[2]) == 1 and not b[3] and self.const_fill:
+            return ("map", a[1][0], b[2][0])
         return ("bin", op, a, b)
 
     def subscript(self, obj, idx):
@@ -353,9 +357,7 @@ class Exec:
     def call(self, node, env):
         f = self.ev(node.func, env)
         args = tuple(self._elts(node.args, env))
-        if any(k.arg is None for k in node.keywords):
-            self.fail(node, "**kwargs in a call")
-        kwargs = tuple((k.arg, self.ev(k.value, env)) for k in node.keywords)
+        kwargs = tuple((k.arg if k.arg is not None else "**", self.ev(k.value, env)) for k in node.keywords)
         # a few builtins on concrete data
         if f == ("sym", "len") and len(args) == 1 and args[0][0] in ("tuple", "list") and not any(x[0] == "star" for x in args[0][1]):
             return const(len(args[0][1]))
@@ -470,6 +472,7 @@ class Exec:
         sub.attrs = self.attrs
         sub.probes = self.probes
         sub.callhooks = self.callhooks
+        sub.const_fill = self.const_fill
         tree = sub.block(strip_doc(fn.body), env, lambda e: ("ret", NONE))
         return self.tree_value(tree, node)
 
@@ -809,7 +812,7 @@ def find_nodes(v, pred, acc=None):
     return acc
 
 
-def run_function(tree, path, qualname, opaque=(), inline=None, args=None, max_depth=4, allow_stuck=False, attrs=None, assume=(), callhooks=None):
+def run_function(tree, path, qualname, opaque=(), inline=None, args=None, max_depth=4, allow_stuck=False, attrs=None, assume=(), callhooks=None, const_fill=False):
     """Outcome tree of `func` / `Class.method` with its parameters as symbols (`args` may bind some to given values)."""
     parts = qualname.split(".")
     cls = parts[0] if len(parts) == 2 else None
@@ -825,10 +828,14 @@ def run_function(tree, path, qualname, opaque=(), inline=None, args=None, max_de
     ex = Exec(tree, path, cls=cls, opaque=set(opaque) | {parts[-1]}, inline=inline, max_depth=max_depth)
     ex.attrs = dict(attrs or {})
     ex.callhooks = dict(callhooks or {})
+    ex.const_fill = const_fill
     ex.known = list(assume)
     env = {}
     for a in node.args.posonlyargs + node.args.args + node.args.kwonlyargs:
         env[a.arg] = ("sym", a.arg)
+    for a in (node.args.vararg, node.args.kwarg):
+        if a is not None:
+            env[a.arg] = ("sym", a.arg)
     if args:
         env.update(args)
     tree = ex.block(strip_doc(node.body), env, lambda e: ("ret", NONE))
@@ -978,6 +985,26 @@ class Emit:
             if fn == "int" and len(args) == 1:
                 return self.z(args[0])
         self.fail(v, "integer expression outside subset")
+
+    def raises(self, tree):
+        """The condition under which an outcome tree raises, as a boolean term."""
+        if tree[0] == "do":
+            return self.raises(tree[2])
+        if tree[0] != "if":
+            return "true" if tree[0] == "raise" else "false"
+        a, b = self.raises(tree[2]), self.raises(tree[3])
+        c = self.b(tree[1])
+        if a == b:
+            return a
+        if a == "true":
+            return c if b == "false" else "(%s || %s)" % (c, b)
+        if b == "false":
+            return "(%s && %s)" % (c, a)
+        if a == "false":
+            return "(negb %s)" % c if b == "true" else "((negb %s) && %s)" % (c, b)
+        if b == "true":
+            return "((negb %s) || %s)" % (c, a)
+        return "(if %s then %s else %s)" % (c, a, b)
 
     def b(self, v):
         t = self.leaf(("as_bool", v))
